@@ -22,10 +22,10 @@ Statement wanted by the property, kept visible:
 After the repairs 7945c47f, b481834b, 617805a9, 1511e557 the first three hold of the current table for **all**
 regions of the modelled kinds and all points, with the single stated exception `curveCut` (a polygon minus a
 polyline: proved for the points off the polyline, all of whose points are boundary points), and the dispatch
-terminates for every pair.  `intersects` holds outside `knownIsectDefect`, which is *computed from the current
-data* and today consists of a point set against a composite region (genuine remaining defect, witness
-`trueContains_composite_witness`, proposed repair `notes/fixes/C16-composite-true-membership.diff`); it becomes
-empty as soon as the flag `compTrueStructural` is extracted as `true`.
+terminates for every pair.  After 9c3fab32 (the composite regions define `_trueContainsPoint` structurally: flag
+`compTrueStructural`, required by `gen_flags_ok`) the fourth holds for **all** pairs as well: no family of
+operands is excluded any more (`trueContains_composite_witness` records what the inherited footprint predicate
+did to a point set against a composite region).
 -/
 namespace Scenic.C16
 open Scenic.Region Scenic.Gen.RegionOps
@@ -88,23 +88,14 @@ def finished : Route → Bool
   | .crash => false
   | .fuel => false
 
-/-- families in which `intersects` does not decide "share a point" in the current code (known finding): a point
-    set against a composite region — `PointSetRegion.intersects` asks `other._trueContainsPoint`, which composites
-    inherit from `Region` (= `containsPoint`, footprint semantics) -/
-def knownIsectFamily (c : Ctl) : Bool :=
-  (c.ka == .pts && c.kb == .comp) || (c.kb == .pts && c.ka == .comp)
-
-/-- the control states of the known `intersects` family whose route on the current table is indeed not accepted
-    (empty once the code is repaired) -/
-def knownIsectDefect (T : Table) (F : Flags) (c : Ctl) : Bool :=
-  knownIsectFamily c && !isectRouteOK' F c (routeOf T fuelBound .intersects c)
-
 /-! ## side conditions on the regenerated data (re-decided on every run) -/
 
-/-- the heights used by the point predicates are the ones the property needs -/
+/-- the heights used by the point predicates are the ones the property needs, and the composite regions define
+    `_trueContainsPoint` structurally (9c3fab32) -/
 theorem gen_flags_ok :
     flags.pointsOK ∧ flags.fromShapelyPassesZ = true ∧ flags.polyDistZ = .selfZ ∧ flags.discDistPlane = .selfZ ∧
-    flags.polyAABBZ = .selfZ ∧ flags.discAABBZ = .selfZ ∧ flags.projectAxis1 = true := by
+    flags.polyAABBZ = .selfZ ∧ flags.discAABBZ = .selfZ ∧ flags.projectAxis1 = true ∧
+    flags.compTrueStructural = true := by
   unfold Flags.pointsOK; decide
 
 /-- every ordered pair of kinds, lazy or eager, at equal or different heights, reaches a handler or a
@@ -132,10 +123,9 @@ theorem gen_workspace_delegates : Delegation.allForward workspace = true := by
   decide +kernel
 
 /-- every route taken by `intersects` is accepted by `isectRouteOK'` (exact handlers, or the generic
-    `self.intersect(other)` test on an accepted `intersect` route), outside the known families -/
+    `self.intersect(other)` test on an accepted `intersect` route) — every pair, no family excluded -/
 theorem gen_routes_intersects_sound :
-    (goodCtl.all fun c =>
-      knownIsectFamily c || isectRouteOK' flags c (routeOf table fuelBound .intersects c)) = true := by
+    (goodCtl.all fun c => isectRouteOK' flags c (routeOf table fuelBound .intersects c)) = true := by
   decide +kernel
 
 /-- polygonal operands at a common height are routed to the handlers that keep that height -/
@@ -254,37 +244,33 @@ theorem result_keeps_height (O : Oracle) (A B : Reg) (ha : planarK A.kind = true
 example : planarK (Reg.planar 5 unitDisc).kind = true ∧ (Reg.planar 5 unitDisc).isLazy = false := ⟨rfl, rfl⟩
 
 /-- **`A.intersects(B)` is either refused (NotImplementedError) or holds exactly when A and B share a point**,
-    for all regions of the modelled kinds (outside `knownIsectDefect`, computed from the current data: a point set
-    against a composite region — witness `trueContains_composite_witness`), under the contracts of the geometric
-    oracles -/
+    for **all** regions of the modelled kinds (no excluded family: a point set against a composite region is
+    covered since 9c3fab32), under the contracts of the geometric oracles -/
 theorem intersects_iff_common_point (O : Oracle) (hO : OracleOK O) (A B : Reg)
     (hrA : 0 ≤ A.radius) (hrB : 0 ≤ B.radius)
     (hiA : A.kind ≠ .empty → ∃ p, A.mem p = true) (hiB : B.kind ≠ .empty → ∃ p, B.mem p = true)
-    (hfa : A.kind = .foot → bareFoot A) (hfb : B.kind = .foot → bareFoot B)
-    (hk : knownIsectDefect table flags (ctlOf A B) = false) :
+    (hfa : A.kind = .foot → bareFoot A) (hfb : B.kind = .foot → bareFoot B) :
     dispatch table O flags .intersects A B = .notImpl ∨
     ∃ b, dispatch table O flags .intersects A B = .bool b ∧ (b = true ↔ ∃ p, A.mem p = true ∧ B.mem p = true) := by
   have h := gen_routes_intersects_sound
   simp only [List.all_eq_true] at h
-  have := h (ctlOf A B) (mem_goodCtl A B)
-  simp only [knownIsectDefect, Bool.and_eq_false_iff, Bool.not_eq_false'] at hk
-  have hr : isectRouteOK' flags (ctlOf A B) (routeOf table fuelBound .intersects (ctlOf A B)) = true := by
-    simp only [Bool.or_eq_true] at this
-    rcases this with hf | hr
-    · rcases hk with hnf | hr
-      · rw [hf] at hnf; exact absurd hnf (by simp)
-      · exact hr
-    · exact hr
-  exact intersects_sound' O hO flags _ A B hrA hrB hiA hiB hfa hfb hr
+  exact intersects_sound' O hO flags _ A B hrA hrB hiA hiB hfa hfb (h (ctlOf A B) (mem_goodCtl A B))
 
-example : knownIsectDefect table flags (ctlOf (.planar 5 unitDisc) (.vol (Box.aligned ⟨0, 0, 5⟩ ⟨1, 1, 1⟩))) = false := by
-  decide +kernel
+/-- the hypotheses are satisfiable by the pair that used to be excluded: a point set against a composite (the box
+    minus a disc at height 1 of `trueContains_composite_witness`) — both have members, no footprint operand -/
+example : (∃ p, (Reg.pts [⟨0, 0, 0⟩]).mem p = true) ∧
+    (∃ p, (Reg.diff (.vol (Box.aligned ⟨0, 0, 0⟩ ⟨2, 2, 2⟩)) (.planar 1 unitDisc)).mem p = true) ∧
+    (Reg.diff (.vol (Box.aligned ⟨0, 0, 0⟩ ⟨2, 2, 2⟩)) (.planar 1 unitDisc)).kind = .comp :=
+  ⟨⟨⟨0, 0, 0⟩, by simp [Reg.mem]⟩, ⟨⟨0, 0, 0⟩, (trueContains_composite_witness
+    ⟨true, .selfZ, .selfZ, true, true, .selfZ, .selfZ, true, true, true, false⟩ rfl).2⟩, rfl⟩
 
-/-- discs at different heights, an elevated polygon against a polyline and a point set against a polygon are no
-    longer excluded (repairs 617805a9, b481834b, 1511e557) -/
-example : knownIsectDefect table flags (ctlOf (.disc 0 ⟨0, 0⟩ 1) (.disc 1 ⟨0, 0⟩ 1)) = false ∧
-    knownIsectDefect table flags (ctlOf (.planar 5 unitDisc) (.line [⟨-3, 0⟩, ⟨3, 0⟩])) = false ∧
-    knownIsectDefect table flags (ctlOf (.pts [⟨0, 0, 0⟩]) (.planar 5 unitDisc)) = false := by
+/-- the table / flags as they were before 9c3fab32 do not pass the side condition: a point set against a composite
+    was decided with the composite's inherited footprint predicate -/
+theorem intersects_composite_witness :
+    isectRouteOK' { flags with compTrueStructural := false } ⟨.pts, .comp, false, false, false, false, false⟩
+      (routeOf table fuelBound .intersects ⟨.pts, .comp, false, false, false, false, false⟩) = false ∧
+    isectRouteOK' flags ⟨.pts, .comp, false, false, false, false, false⟩
+      (routeOf table fuelBound .intersects ⟨.pts, .comp, false, false, false, false, false⟩) = true := by
   decide +kernel
 
 /-- **projection `onto` a box returns the nearest member along the given direction**, on the flags read off the
@@ -294,11 +280,24 @@ theorem project_nearest (b : Box) (hb : b.proper) (p d : Pt) :
     (∀ q, projectVector flags b p d = some q →
       b.mem q = true ∧ ∃ t, q = p.along d t ∧ ∀ s, b.mem (p.along d s) = true → t * t ≤ s * s) ∧
     (projectVector flags b p d = none → ∀ s, b.mem (p.along d s) = false) :=
-  projectVector_nearest flags gen_flags_ok.2.2.2.2.2.2 b hb p d
+  projectVector_nearest flags gen_flags_ok.2.2.2.2.2.2.1 b hb p d
 
-/-- the membership realised by the generic samplers of `A op B` (composite of two primitive operands) and the
-    support of the point-set sampler are 3-coordinate membership on the current flags -/
-theorem sampler_membership (R : Reg) (hf : flatComp R) (p : Pt) : memCode flags R p = R.mem p :=
-  memCode_eq_mem flags gen_flags_ok.1 R hf p
+/-- the membership realised by the generic samplers of `A op B` is 3-coordinate membership on the current flags,
+    for **every** region — arbitrarily nested composites included (since 9c3fab32; before: composites of
+    primitives only, `memCode_eq_mem`) -/
+theorem sampler_membership (R : Reg) (p : Pt) : memCode flags R p = R.mem p :=
+  memCode_eq_mem_all flags gen_flags_ok.1 gen_flags_ok.2.2.2.2.2.2.2 R p
+
+/-- `_trueContainsPoint` is 3-coordinate membership for every region, nested composites included -/
+theorem true_membership (R : Reg) (p : Pt) : trueContains flags R p = R.mem p :=
+  trueContains_eq_mem_all flags gen_flags_ok.1 gen_flags_ok.2.2.2.2.2.2.2 R p
+
+/-- the specialised sampler of `PointSetRegion.intersect(B)` chooses among exactly the common points, whatever `B` is
+    (composites included) -/
+theorem pointset_sampler_support (A B : Reg) (ha : A.kind = .pts) (p : Pt) :
+    p ∈ ptsSamplerSupport flags A B ↔ (A.mem p = true ∧ B.mem p = true) :=
+  ptsSampler_support flags gen_flags_ok.1 A B ha (Or.inr gen_flags_ok.2.2.2.2.2.2.2) p
+
+example : (Reg.pts [⟨0, 0, 0⟩]).kind = .pts := rfl
 
 end Scenic.C16
